@@ -74,7 +74,8 @@ func NewConstInt[T constraints.Signed](val T, w Width) Const {
 		val >>= 8
 	}
 
-	if val != 0 && (val != -1 || bs[len(bs)-1] < 128) {
+	// All bits dropped have to be copies of the highest (sign) bit stored.
+	if negative := bs[len(bs)-1] >= 128; (val != 0 || negative) && (val != -1 || !negative) {
 		panic(fmt.Sprintf("value of type %T doesn't fit to value of width %d: %d",
 			val, w, valCopy))
 	}
